@@ -591,7 +591,7 @@ CHECKS = {
             {"module": "rueidis", "scenario": "stream", "quick": 6000, "thorough": 400000},
             {"module": "rueidis", "scenario": "stream", "variant": "enum", "quick": 2048, "thorough": 65536},
         ],
-        "expected_probes": ["writer-failed-midway", "partial-consumption", "reply-split-across-reads"],
+        "expected_probes": ["empty-bulk-string-streamed", "writer-failed-midway", "partial-consumption", "reply-split-across-reads"],
         "components": {"real": REAL, "stubs": STUBS},
         "assumptions": ["a failing io.Writer alone does not count as 'could not be consumed completely': the rest of that reply is discarded and the connection stays usable"],
     },
